@@ -329,6 +329,15 @@ def run(ck, m):
     wimg = next((w for w in body_walk(ff) if isinstance(w, ast.With) and [norm(i.context_expr) for i in w.items] == ["img"]), None)
     ck.ob("R5", ff, wimg is not None and any(norm(s) == "new = cls(img, **kwargs)" for s in wimg.body), "from_file must close the probe image it opened (with img:)", stmt="from_file: with img")
 
+    # every frame is formatted for the image's size *at that frame*: nothing that depends on the image's size (rendered_size / width / height, size) is
+    # read outside the frame loops - a decision taken once at the start ("padding is a no-op for this spec") is stale after set_size() or a terminal resize
+    SIZE_ATTRS = {"rendered_size", "rendered_width", "rendered_height", "size", "width", "height", "_size"}
+    loops8 = [x for x in body_walk(an) if isinstance(x, (ast.While, ast.For))]
+    inside8 = {id(y) for lp_ in loops8 for y in ast.walk(lp_)}
+    snap8 = [x for x in body_walk(an) if isinstance(x, ast.Attribute) and isinstance(x.ctx, ast.Load) and x.attr in SIZE_ATTRS and norm(x.value) in ("image", "self._image") and id(x) not in inside8]
+    ck.ob("R4", enclosing_stmt(snap8[0]) if snap8 else an, not snap8, f"_animate reads `{norm(snap8[0]) if snap8 else ''}` once, outside the frame loops: frames rendered after the image's size changed are then formatted "
+          "(padded / aligned) according to the size at the start of the iteration - they no longer equal formatting that frame directly", stmt="_animate: size-dependent values are read per frame, not before the loops")
+
     # ---- R8: a value sent to the generator (seek) is consumed before the next yield overwrites it ------------------------------------------
     g8 = CFG(an)
     ynodes = [n_ for n_ in g8.nodes if n_.kind == "stmt" and isinstance(n_.ast, ast.Assign) and isinstance(n_.ast.value, ast.Yield) and any(norm(t_) == "sent" for t_ in n_.ast.targets)]
